@@ -2867,13 +2867,22 @@ def groupby_reduce(
                 f"Received method={method!r}"
             )
 
-        if (
-            _is_arg_reduction(agg)
-            and method == "blockwise"
-            and not all(nchunks == 1 for nchunks in array.numblocks[-nax:])
-        ):
+        # number of blocks along the reduced axes (the array may be in memory when only `by` is chunked)
+        nblocks_reduced = tuple(array.numblocks[-nax:]) if is_duck_dask_array(array) else (1,) * nax
+        if is_duck_dask_array(by_):
+            nblocks_reduced += tuple(by_.numblocks[-nax:])
+        single_block = all(nchunks == 1 for nchunks in nblocks_reduced)
+
+        if _is_arg_reduction(agg) and method == "blockwise" and not single_block:
             raise NotImplementedError(
                 "arg-reductions are not supported with method='blockwise', use 'cohorts' instead."
+            )
+
+        if method == "blockwise" and any_by_dask and not single_block:
+            # the groups present in each block are unknown, so the per-block results cannot be assembled
+            raise NotImplementedError(
+                "method='blockwise' with chunked group labels is only supported for a single block "
+                "along the reduced axes. Use method='map-reduce' instead."
             )
 
         if nax != by_.ndim and method in ["blockwise", "cohorts"]:
